@@ -96,7 +96,7 @@ func (key watermarkTriggerKey) Less(than btree.Item) bool {
 		panic(fmt.Sprintf("invalid key comparison: %T", than))
 	}
 
-	if key.Time == thanTyped.Time {
+	if key.Time.Equal(thanTyped.Time) {
 		return key.GroupKey.Less(thanTyped.GroupKey)
 	} else {
 		return key.Time.Before(thanTyped.Time)
